@@ -287,7 +287,17 @@ impl Check for DrawdownScan {
             let mut live = g.clone();
             let mut scan: Option<Scan> = None;
             let mut prev = Decimal::ZERO;
+            // a new session may be started on the same generators (`reset`): from then on the sheet
+            // describes the new session's curve only
+            // (like the first value of the curve, the first value of the new session is positive)
+            let reset_at = (1..pts.len()).find(|i| case.points[*i].locked == 7 && pts[*i].1 > Decimal::ZERO);
             for (i, (t, v)) in pts.iter().enumerate() {
+                if reset_at == Some(i) {
+                    g.reset(ts(*t - 1));
+                    live.reset(ts(*t - 1));
+                    scan = None;
+                    prev = Decimal::ZERO;
+                }
                 let exited: PositionExited<QuoteAsset, u8> = PositionExited {
                     instrument: 0,
                     side: Side::Buy,
@@ -480,6 +490,7 @@ impl Check for DrawdownScan {
             }
         }
         rep.class_if(deepened_after_query, "interim_query_then_deeper_decline");
+        rep.class_if((1..pts.len()).any(|i| case.points[i].locked == 7 && pts[i].1 > Decimal::ZERO), "instrument_sheet_generator_reset_mid_history");
         rep.class_if(queries(case).len() >= 2, "two_or_more_interim_queries");
         rep.nontrivial = scan.completed.len() >= 2 && scan.in_progress().is_some();
         rep
@@ -487,7 +498,7 @@ impl Check for DrawdownScan {
 }
 
 pub fn run(ctx: &mut Ctx) {
-    ctx.rule = "drawdown_scan: 1..60|150 timed points, strictly increasing times, values from a small grid (1..7 mostly, up to 200, a few <= 0 after the first) with +-0.1 perturbations so that equal consecutive values, exact recoveries to the peak and new highs by one tick are common; first value > 0. Fed to DrawdownGenerator (default and init), Max/Mean generators (updated from empty, and constructed from the first drawdown through init()), TearSheetAssetGenerator (balances; a third of them with part of the total locked, free < total) and TearSheetGenerator (cumulative PnL of closed positions with varying entry price / size), (final sheets only) a TradingSummaryGenerator over two venues whose index order is not their alphabetical order, fed by index with two assets whose venues' clocks are 5 s apart and with the curve as one instrument's cumulative PnL next to an instrument that only gains (sheets read by name), and the asset statistics inside an EngineState that receives the curve as account events (single balance updates; where `locked` is odd, full account snapshots), each compared after every point with an independent peak-to-trough scan; after 15% of the points the live generators themselves (not copies) are asked for the current drawdown / an interim tear sheet and keep being updated afterwards. non-trivial = >= 2 completed drawdowns and one in progress at the end; distinct by hash of the case.".into();
+    ctx.rule = "drawdown_scan: 1..60|150 timed points, strictly increasing times, values from a small grid (1..7 mostly, up to 200, a few <= 0 after the first) with +-0.1 perturbations so that equal consecutive values, exact recoveries to the peak and new highs by one tick are common; first value > 0. Fed to DrawdownGenerator (default and init), Max/Mean generators (updated from empty, and constructed from the first drawdown through init()), TearSheetAssetGenerator (balances; a third of them with part of the total locked, free < total) and TearSheetGenerator (cumulative PnL of closed positions with varying entry price / size; in one curve of 25 the generator is reset mid-history and describes the new session only), (final sheets only) a TradingSummaryGenerator over two venues whose index order is not their alphabetical order, fed by index with two assets whose venues' clocks are 5 s apart and with the curve as one instrument's cumulative PnL next to an instrument that only gains (sheets read by name), and the asset statistics inside an EngineState that receives the curve as account events (single balance updates; where `locked` is odd, full account snapshots), each compared after every point with an independent peak-to-trough scan; after 15% of the points the live generators themselves (not copies) are asked for the current drawdown / an interim tear sheet and keep being updated afterwards. non-trivial = >= 2 completed drawdowns and one in progress at the end; distinct by hash of the case.".into();
     ctx.assumptions = vec![
         "running maxima are positive (first value > 0); later values may be <= 0".into(),
         "tear-sheet generate() is called once per generator clone, as the engine API does (generate folds the in-progress drawdown into max/mean)".into(),
